@@ -17,7 +17,8 @@
 EXTENDS Naturals, Sequences, FiniteSets
 
 CONSTANTS NWorkers, QCap, MaxWrites,
-          SendUnderLock   \* TRUE: the rotating worker still holds the journal mutex while it sends (not the code)
+          SendUnderLock,  \* TRUE: the rotating worker still holds the journal mutex while it sends (not the code)
+          FlushTrySend    \* TRUE: the flush task is announced with try_send, i.e. dropped when the queue is full (not the code)
 
 VARIABLES q,        \* the queue: Seq of "Rotate" | "Flush" | "Compact"
           wk,       \* [1..NWorkers -> "idle" | "needLockR" | "needLockF" | "sendFlush" | "flushing" | "sendCompact"]
@@ -63,8 +64,9 @@ Acquire(w) ==
     /\ UNCHANGED <<q, nw>>
 
 \* blocking send(Flush) of the rotating worker
-SendFlush(w) == /\ wk[w] = "sendFlush" /\ Len(q) < QCap
-                /\ q' = Append(q, "Flush") /\ wk' = [wk EXCEPT ![w] = "idle"]
+SendFlush(w) == /\ wk[w] = "sendFlush" /\ (Len(q) < QCap \/ FlushTrySend)
+                /\ q' = IF Len(q) < QCap THEN Append(q, "Flush") ELSE q
+                /\ wk' = [wk EXCEPT ![w] = "idle"]
                 /\ lock' = IF lock = w THEN 0 ELSE lock
                 /\ UNCHANGED <<sealed, tasks, big, nw>>
 \* the flush is done: the sealed memtable is gone; compaction requests by try_send
@@ -98,4 +100,11 @@ NoSendUnderLock == \A w \in W : wk[w] \in {"sendFlush", "sendCompact"} => lock #
 NobodyReceives == /\ Len(q) = QCap
                   /\ \A w \in W : wk[w] \in {"sendFlush", "sendCompact", "needLockR", "needLockF"}
 WritersNeverStuck == NobodyReceives => lock = 0
+\* every queued flush task has its announcement under way: a Flush message in the queue, a worker
+\* about to send it, or a worker that received it and is about to dequeue the task.  (A lost
+\* announcement leaves a task - and its sealed memtable - behind for good: the keyspace reaches 4
+\* sealed memtables and its writers stall for ever.)
+RECURSIVE CountFlush(_)
+CountFlush(s) == IF s = <<>> THEN 0 ELSE (IF Head(s) = "Flush" THEN 1 ELSE 0) + CountFlush(Tail(s))
+TasksAnnounced == tasks <= CountFlush(q) + Cardinality({w \in W : wk[w] \in {"sendFlush", "needLockF"}})
 =============================================================================
